@@ -21,7 +21,7 @@ RULE = ("A: packet histories at one station (distinct by hash of the event list)
         "hop limit, origin); non-trivial = at least one duplicate or forward was observed and judged.")
 ASSUMPTIONS = ["a replay outside the DPL window may legitimately be delivered/forwarded again: the model tracks the ring exactly",
                "omitted forwards (PDR limit, area-size control, SCF stub) are allowed: at-most-once is an upper bound"]
-REQUIRED_COUNTERS = ["A.late_packets_with_old_source_timestamp", "A.cbf_rebuffer_judged", "A.forward_copies_compared[no-neighbour,scf]", "A.cbf_overheard_judged", "A.cbf_overheard_after_leaving_the_area", "A.duplicates_judged", "A.forward_copies_compared", "A.rhl01_judged", "A.own_address_judged", "B.floods",
+REQUIRED_COUNTERS = ["A.histories_across_the_timestamp_wrap", "A.late_packets_with_old_source_timestamp", "A.cbf_rebuffer_judged", "A.forward_copies_compared[no-neighbour,scf]", "A.cbf_overheard_judged", "A.cbf_overheard_after_leaving_the_area", "A.duplicates_judged", "A.forward_copies_compared", "A.rhl01_judged", "A.own_address_judged", "B.floods",
                      "B.station_packet_pairs", "B.cbf_overheard_judged"]
 
 KINDS = ("tsb", "gbc_in", "gbc_out", "gac_in", "gac_out", "guc_other", "guc_me", "ls_req_other", "ls_rep_other")
@@ -88,14 +88,23 @@ def gen_a(rng):
             if src != "self" and not ev[-1]["old_tst"]:
                 seen_fresh.add(src)
             fresh.append(len(ev) - 1)
-    return {"part": "A", "alg": rng.choice((1, 2)), "dpl": dpl, "events": ev, "src_inside": False, "has_nb": rng.random() < 0.7}
+    return {"part": "A", "alg": rng.choice((1, 2)), "dpl": dpl, "events": ev, "src_inside": False, "has_nb": rng.random() < 0.7,
+            # the whole history is laid across the roll-over of the 32-bit millisecond timestamp (every 49.7 days)
+            "near_wrap_ms": rng.choice((None, None, None, 1500, 4000, 9000))}
 
 
 def run_a_case(c, res):
     from vf.gnharness import World, mid_of
     from vf.vclock import tst_of
     from flexstack.geonet.mib import AreaForwardingAlgorithm
-    with World() as w:
+    t0 = None
+    if c.get("near_wrap_ms"):
+        # first roll-over after the default epoch of the harness: TST = (t - 2004-01-01 - 5 s leap) ms mod 2^32
+        from vf import vclock as VC
+        k_ = int((VC.DEFAULT_T0 - 1072915195) * 1000) // (1 << 32) + 1
+        t0 = 1072915195 + (k_ * (1 << 32) - c["near_wrap_ms"]) / 1000.0
+        res.count("A.histories_across_the_timestamp_wrap")
+    with World(t0) as w:
         A = w.add("A", mid_of(1), lat=MY_LAT, lon=MY_LON, ports=(2001,),
                   mib_over={"itsGnAreaForwardingAlgorithm": AreaForwardingAlgorithm(c["alg"]), "itsGnDPLLength": c["dpl"]})
         N = w.add("N", mid_of(2), lat=MY_LAT + 900, lon=MY_LON + 900, ports=(2001,))      # a real neighbour (also the 'nb' destination)
